@@ -7,7 +7,7 @@ from props.mem_common import keep_labels
 
 MANIFEST = {
     "level": "proof",
-    "text": "Frame conditions on the OAM array plus a cross-object invariant: every function of package oam is verified against a contract whose assigns clause lets only Write (the addressed byte), TickDMA and Corrupt touch m.oam; Corrupt is proved to change nothing unless a trigger flag is pending, and the trigger flags are proved to be set (by Read, Write, TriggerWriteCorruption) only while m.corrupt holds; the cross-object invariant xinv 'oam.corrupt == (ppu.enabled && ppu.mode == 2)' is established by ppu.New and preserved by ppu.EndMachineCycle (mode transitions), enable, disable and WriteLCDC, and no oam method other than EnterMode2/ExitMode2 assigns corrupt. SSA scans prove that only package ppu calls EnterMode2/ExitMode2, that the CPU reaches oam only through TriggerWriteCorruption and Corrupt, and memory only through Read/Write/TickDMA/ReadDMA/WriteDMA. Hence with the LCD off (whenever and however it was switched off) no CPU activity alters OAM other than a write's own byte, and the corruption can run only with the LCD on in mode 2. A sleeping CPU (HALT or STOP, nothing pending) is proved to make no bus access and change nothing in a machine cycle, the wake-up cycle of a halted CPU makes none either, and the interrupt dispatch (whose two pushes may go into OAM) runs the hook at the end of each of its bus cycles (lemma:halt-idle, lemma:stop-idle, lemma:halt-wake-*, lemma:dispatch:oambug).",
+    "text": "Frame conditions on the OAM array plus a cross-object invariant: every function of package oam is verified against a contract whose assigns clause lets only Write (the addressed byte), TickDMA and Corrupt touch m.oam; Corrupt is proved to change nothing unless a trigger flag is pending, and the trigger flags are proved to be set (by Read, Write, TriggerWriteCorruption) only while m.corrupt holds; the cross-object invariant xinv 'oam.corrupt == (ppu.enabled && ppu.mode == 2)' is established by ppu.New and preserved by ppu.EndMachineCycle (mode transitions), enable, disable and WriteLCDC, and no oam method other than EnterMode2/ExitMode2 assigns corrupt. SSA scans prove that only package ppu calls EnterMode2/ExitMode2, that the CPU reaches oam only through TriggerWriteCorruption and Corrupt, and memory only through Read/Write/TickDMA/ReadDMA/WriteDMA. Hence with the LCD off (whenever and however it was switched off) no CPU activity alters OAM other than a write's own byte, and the corruption can run only with the LCD on in mode 2. A sleeping CPU (HALT or STOP, nothing pending) is proved to make no bus access and change nothing in a machine cycle, the wake-up cycle of a halted CPU makes none either, and the interrupt dispatch (whose two pushes may go into OAM) runs the hook at the end of each of its bus cycles (lemma:halt-idle, lemma:stop-idle, lemma:halt-wake-*, lemma:dispatch:oambug). The same lemmas prove what the hook is told: every address passed to TriggerWriteCorruption is a value the stepped 16-bit register (BC, DE, HL or SP, by the documented opcode table) holds before one of its steps in that instruction, and opcodes that step no 16-bit register trigger nothing.",
     "note": "Trusted: go/ssa, engine semantics, z3. The content of the four corruption patterns is not specified (the statement only bounds when they may happen); their index safety is C11's obligation.",
     "technique": "frame conditions + cross-object invariant on the real go/ssa, SSA call scans; z3",
     "design_ref": "DESIGN.md section 4 C17",
